@@ -631,15 +631,17 @@ def floorflush(ctx: Any) -> List[Ob]:
 
     for age in (0, 999, 1000, 1001, 5000):
         for in_answers in (False, True):
-            atoms = {now_param: 100000, '.created': 100000 - age}
-            # membership test of the record in the datagram's answers
-            for n in ast.walk(g.node):
-                if isinstance(n, ast.Compare) and isinstance(n.ops[0], (ast.In, ast.NotIn)):
-                    atoms[norm(n)] = (in_answers if isinstance(n.ops[0], ast.In) else not in_answers)
-            oc, _ = traces(ctx, g, atoms, eff_m, loop_bound=1)
-            hit = any('MARK' in t for t in oc)
-            want = age > 1000 and not in_answers
-            obs.append(ob(R, g, f'age={age}ms in_datagram={in_answers}', f'marked iff older than 1000 ms and not repeated in the datagram (expected {want})', hit == want, f'mark reachable: {hit}'))
+            for lapsing in (False, True):
+                # `lapsing`: the record runs out within the coming second anyway, or already has and waits for the purge
+                atoms = {now_param: 100000, '.created': 100000 - age, '.is_expired()': lapsing, '.get_expiration_time()': 100500 if lapsing else 150000, '.get_remaining_ttl()': 0 if lapsing else 50}
+                # membership test of the record in the datagram's answers
+                for n in ast.walk(g.node):
+                    if isinstance(n, ast.Compare) and isinstance(n.ops[0], (ast.In, ast.NotIn)):
+                        atoms[norm(n)] = (in_answers if isinstance(n.ops[0], ast.In) else not in_answers)
+                oc, _ = traces(ctx, g, atoms, eff_m, loop_bound=1)
+                hit = any('MARK' in t for t in oc)
+                want = age > 1000 and not in_answers and not lapsing
+                obs.append(ob(R, g, f'age={age}ms in_datagram={in_answers} {"runs out within the second" if lapsing else "more than a second to live"}', f'marked iff older than 1000 ms, not repeated in the datagram and not running out within the second anyway (expected {want}): the mark only ever shortens a lifetime', hit == want, f'mark reachable: {hit}' + ('; a record whose TTL has elapsed (not purged yet) gets a new lease of one second from every flush' if hit and lapsing else '')))
     # the records considered are those of the same name, type and class
     sel = [c for c in ast.walk(g.node) if isinstance(c, ast.Call) and call_name(c) == 'async_all_by_details']
     loops = [n for n in ast.walk(g.node) if isinstance(n, ast.For)]
